@@ -9,7 +9,8 @@ Section C03.
   Variable mredir : str -> str -> option verdict.
   Variable cdres : str -> str -> str.
   Variable injrisk : ctx -> list str -> bool.
-  Notation walk := (walk simple astr mredir cdres injrisk).
+  Variable rulematch : ctx -> list str -> bool.
+  Notation walk := (walk simple astr mredir cdres injrisk rulematch).
 
   (* building blocks used to state the laws on concrete shapes *)
   Definition mk (k : string) (kids : list (str * tree)) : tree := T (s2l k) [] [] kids.
